@@ -167,7 +167,7 @@ def respline_jobs(tier):
 
 
 # ------------------------------------------------------------------ header lookup
-def hdr_job(name, fields, look, end="", line="GET / HTTP/1.1", lcb_fallback=False, timeout=None, mode=1):
+def hdr_job(name, fields, look, end="", line="R", lcb_fallback=False, timeout=None, mode=1):
     total = tlen(line) + tlen(end) + sum(3 + tlen(n) + tlen(v) for n, v in fields)
     nsym = tsyms(line) + tsyms(end) + tsyms(look) + sum(tsyms(n) + tsyms(v) for n, v in fields)
     defs = {"MODE": mode, "NF": len(fields), "T_LOOK": cstr(look), "LOOKLEN": tlen(look), "T_LINE": cstr(line), "T_END": cstr(end),
